@@ -215,6 +215,15 @@ func init() {
 		Doc: "schema scanner on plain JSON: for every reachable state pair and every byte the RFC 8259 reference accepts, the schema scanner accepts it too and emits the same events with the same spans (new-line events aside; exponents are rejected by design)"})
 }
 
+func init() {
+	register(&Rule{ID: "SA-E-deep", Min: 30, Thorough: true, Run: func(c *load.Ctx, r *report.RuleResult) {
+		runSASibling(c, r, "rules/enum", "newScanner", "scanner", 4)
+	}, Doc: "SA-E with nesting bound 4"})
+	register(&Rule{ID: "SA-S-deep", Min: 100, Thorough: true, Run: func(c *load.Ctx, r *report.RuleResult) {
+		runSASibling(c, r, "notations/jschema/internal/scanner", "New", "Scanner", 4)
+	}, Doc: "SA-S with nesting bound 4"})
+}
+
 func isBlankByte(b int) bool { return b == ' ' || b == '\t' || b == '\n' || b == '\r' }
 
 func dropNewLines(evs []spec.Ev) []spec.Ev {
